@@ -23,7 +23,7 @@ def shards(tier):
 
 def floors(tier):
     return {"strings": 20000, "collections": 2000, "with_dots": 5000, "empty_string": 16, "encoder_outputs": 1000,
-            "decoder_token_taps": 2000, "unicode_or_control": 2000, "empty_body_symbols": 200}
+            "decoder_token_taps": 2000, "unicode_or_control": 2000, "empty_body_symbols": 200, "decoder_cited_tokens_checked": 1500}
 
 
 def make(rng):
@@ -116,6 +116,17 @@ def run(ctx):
     for i in range(120 if quick else 4000):
         x = g.string(rng.choice([1, 2, 3]), rng.choice([5, 20, 60]))
         tap(ctx, sf, x, tokens_with_dots(x))
+    # encoder outputs decoded under a TIGHTER table than they were made for: fragments then stop early with symbols left over
+    for tt in ("octet_rule", {"?": 2, "C": 3}, {"?": 1}):
+        sf.set_semantic_constraints("hypervalent")
+        outs = []
+        for s in smi[:60]:
+            r = call_guard(lambda: sf.encoder(s, strict=False), expected=(sf.EncoderError,))
+            if r[0] == "ok":
+                outs.append(r[1])
+        sf.set_semantic_constraints(tt)
+        for x in outs:
+            tap(ctx, sf, x, tokens_with_dots(x))
     for k, v in MON.counts.items():
         ctx.count(k, v)
 
@@ -141,6 +152,19 @@ def tap(ctx, sf, x, items):
     ctx.count("decoder_token_taps")
     if got != frags:
         ctx.finding("decoder-consumes-different-tokens", {"selfies": x}, "tokenizer tap %r, own tokenisation %r" % (got[:3], frags[:3]))
+    # the decoder's own account of the tokens it consumed: every (position, symbol) it cites with attribute=True must be
+    # that symbol of the tokenisation (positions count symbols, not '.' and not [nop])
+    a = call_guard(lambda: sf.decoder(x, attribute=True), expected=(sf.DecoderError,))
+    if a[0] == "ok":
+        syms = [t for t in items if t not in (".", "[nop]")]
+        ctx.count("decoder_cited_tokens_checked")
+        for e in a[1][1]:
+            for c in (e.attribution or []):
+                if not (isinstance(c.index, int) and 0 <= c.index < len(syms) and syms[c.index] == c.token):
+                    ctx.finding("decoder-cites-a-token-that-is-not-there", {"selfies": x},
+                                "cites (%r, %r); symbol %r of the string is %r" % (
+                                    c.index, c.token, c.index, syms[c.index] if isinstance(c.index, int) and 0 <= c.index < len(syms) else None))
+                    return
 
 
 def replay(ctx, payload):
